@@ -429,6 +429,10 @@ def sync(plan):
     plan["brk"] = [r for r in order if r in set(plan.get("brk", []))]
     plan.setdefault("targets", ["ui", "signer"] if led else ["quote"])
     plan.setdefault("plen", 0 if led else 5)
+    plan.setdefault("embed", "none")
+    plan.setdefault("ename", "na")
+    if led or plan["embed"] == "none":
+        plan["embed"], plan["ename"] = "none", "na"
     for t, role in ((plan["ui"], "ui"), (plan["pow"], "signer")) if led else ((plan["pow"], "quote"),):
         t["exists"] = "t" if role in plan["targets"] else "f"
         t["chain"] = "broken" if path[role] & set(plan["brk"]) else "intact"
@@ -639,6 +643,19 @@ def _realise_sgx(plan, keys, directory, tag, rr, real):
             if pem is None:
                 sub["root_malformed2"] = "expired_samekey"
                 pem = _expired_root(rr, mat, same_key=True)
+    if plan["embed"] != "none":
+        # the file carries a self-signed CA as an x509 element of its own, under the reserved name or nearly
+        if plan["embed"] == "chosenroot" and plan["root"] not in ("right", "wrong"):
+            plan["embed"] = "chainroot"             # there is no usable chosen root to embed
+        body = roots["right"] if plan["embed"] == "chainroot" or plan["root"] == "right" else roots["fresh"]
+        body = "".join(ln for ln in body.splitlines() if ln and not ln.startswith("-----"))
+        name = certv2.ROOT_NAME if plan["ename"] == "sgx_root" else \
+            _pick(rr, ("sgx_root ", "SGX_ROOT", "sgx_root2", "sgxroot", "root", " sgx_root"))
+        if isinstance(cert.get("elements"), list) and cert.get("version") == 2:
+            cert["elements"].insert(rr.randrange(len(cert["elements"]) + 1),
+                                    {"name": name, "type": "x509_pem", "message": body,
+                                     "signed_by": certv2.ROOT_NAME})
+        sub["embedded"] = [name, plan["embed"]]
     rpath = os.path.join(directory, "%s_root.pem" % tag)
     if pem is not None:
         via = _pick(rr, ("file", "url", "default_url", "file"))
@@ -859,6 +876,7 @@ def abstract_of(plan):
             "btc": list(BTC_PATH.encode()),
             "mh": {"enc": plan["mh"]["enc"], "pre": list(plan["mh"]["pre"])},
             "targets": list(plan["targets"]), "brk": list(plan["brk"]), "plen": int(plan["plen"]),
+            "embed": plan["embed"], "ename": plan["ename"],
             "ui": {k: plan["ui"][k] for k in _UI_FIELDS} if plan["plat"] == "ledger" else dict(NA_UI),
             "pow": {k: plan["pow"][k] for k in _POW_FIELDS}}
 
@@ -936,6 +954,7 @@ def plan_from_behaviour(b, rng):
                      "ents": [[names[tuple(e["path"])], e["key"]] for e in inp["file"]["ents"]]},
             "mh": {"enc": inp["mh"]["enc"], "pre": list(inp["mh"]["pre"])},
             "targets": list(inp["targets"]), "brk": list(inp["brk"]), "plen": inp["plen"],
+            "embed": inp.get("embed", "none"), "ename": inp.get("ename", "na"),
             "ui": dict(inp["ui"]), "pow": dict(inp["pow"]), "seed": rng.getrandbits(48)}
     for t in (plan["ui"], plan["pow"]):
         if t.get("m") == "randn":               # "many arbitrary bytes": how many is open
@@ -997,6 +1016,8 @@ def deviate(plan, rng, sep=True):
     nk = max([k for (_n, k) in ents] + plan["mh"]["pre"] + [plan["ui"]["key"], 1])
     dims = ["args", "root", "certfile", "file", "file", "file", "mh", "mh", "unlist", "brk", "brk", "targets",
             "targets", "pow.hdr", "pow.len", "pow.len", "pow.tail"]
+    if plan["plat"] == "sgx":
+        dims += ["embed"]
     if plan["plat"] == "ledger":
         dims += ["ui.hdr", "ui.key", "ui.len", "ui.tail"]
     roles = LEDGER_ROLES if plan["plat"] == "ledger" else SGX_ROLES
@@ -1053,6 +1074,9 @@ def deviate(plan, rng, sep=True):
             rng.shuffle(plan["mh"]["pre"])
         elif m == "subset" and len(plan["mh"]["pre"]) > 1:
             del plan["mh"]["pre"][rng.randrange(len(plan["mh"]["pre"]))]
+    elif d == "embed":
+        plan["embed"] = rng.choice(("chainroot", "chainroot", "chosenroot"))
+        plan["ename"] = rng.choice(("sgx_root", "sgx_root", "near"))
     elif d == "unlist":
         if plan["targets"]:
             gone = rng.choice(plan["targets"])
